@@ -207,7 +207,7 @@ def work_global(mu):
       f.write(mu['src'])
     known = report.load_known_findings()
     killed, inconc = {}, {}
-    for prop in ALL:
+    for prop in (mu.get('owners') or ALL) if os.environ.get('SWEEP_OWNERS_ONLY') else ALL:
       try:
         check, _ = run_property(prop, 'quick', scratch)
       except Exception as e:  # pylint: disable=broad-except
